@@ -90,6 +90,10 @@ func (opts *serveOpts) run(cmd *cobra.Command, args []string) error {
 	if err != nil {
 		return fmt.Errorf("unable to parse store type %s: %w", opts.storeType, err)
 	}
+	// an unset (zero) grace period in the config is replaced by the default, no grace period is requested with a negative value
+	if opts.gcGracePeriod == 0 && cmd.Flags().Changed("gc-grace-period") {
+		opts.gcGracePeriod = -1
+	}
 	conf := config.Config{
 		HTTP: config.ConfigHTTP{
 			Addr:     fmt.Sprintf("%s:%d", opts.addr, opts.port),
